@@ -7,6 +7,7 @@ import (
 
 	"github.com/kardiachain/go-kardia/consensus"
 	cstypes "github.com/kardiachain/go-kardia/consensus/types"
+	cmn "github.com/kardiachain/go-kardia/lib/common"
 	kproto "github.com/kardiachain/go-kardia/proto/kardiachain/types"
 	"github.com/kardiachain/go-kardia/types"
 )
@@ -59,6 +60,45 @@ func (s *Sim) offerVotes(a, b int, rb *cstypes.RoundState, vs *types.VoteSet) {
 		}
 		s.offer(a, b, consensus.VoteChannel, &consensus.VoteMessage{Vote: v}, voteKey(v),
 			fmt.Sprintf("Vote h%d r%d t%d i%d %s", v.Height, v.Round, v.Type, v.ValidatorIndex, short(v.BlockID.Hash)))
+	}
+}
+
+// offerMaj23 models queryMaj23Routine + the VoteSetBits exchange: a node that
+// holds +2/3 for a block id claims it (real VoteSetMaj23Message through the
+// peer's real Receive, which makes the peer keep conflicting votes for that id)
+// and then supplies the votes for that id which the peer lacks for that id.
+// Without it an equivocating validator could hide a polka from a locked node forever.
+func (s *Sim) offerMaj23(a, b int, rb *cstypes.RoundState, vs *types.VoteSet, h uint64, r uint32, t kproto.SignedMsgType) {
+	if vs == nil {
+		return
+	}
+	maj, ok := vs.TwoThirdsMajority()
+	if !ok {
+		return
+	}
+	var theirs *types.VoteSet
+	if rb.Votes != nil {
+		if t == kproto.PrevoteType {
+			theirs = rb.Votes.Prevotes(r)
+		} else {
+			theirs = rb.Votes.Precommits(r)
+		}
+	}
+	if theirs == nil {
+		return
+	}
+	if m2, ok2 := theirs.TwoThirdsMajority(); ok2 && m2.Equal(maj) {
+		return
+	}
+	s.offer(a, b, consensus.StateChannel, &consensus.VoteSetMaj23Message{Height: h, Round: r, Type: t, BlockID: maj},
+		fmt.Sprintf("maj23/%d/%d/%d/%s", h, r, t, short(maj.Hash)), fmt.Sprintf("VoteSetMaj23 h%d r%d t%d %s", h, r, t, short(maj.Hash)))
+	have := theirs.BitArrayByBlockID(maj)
+	for _, v := range vs.VerifVotesForBlock(maj) {
+		if have != nil && have.GetIndex(int(v.ValidatorIndex)) {
+			continue
+		}
+		s.offer(a, b, consensus.VoteChannel, &consensus.VoteMessage{Vote: v}, "m"+voteKey(v),
+			fmt.Sprintf("Maj23Vote h%d r%d t%d i%d %s", v.Height, v.Round, v.Type, v.ValidatorIndex, short(v.BlockID.Hash)))
 	}
 }
 
@@ -125,6 +165,8 @@ func (s *Sim) gossipPair(na, nb *kit.Node, ra, rb *cstypes.RoundState) {
 			for r := uint32(1); r <= maxR; r++ {
 				s.offerVotes(a, b, rb, ra.Votes.Prevotes(r))
 				s.offerVotes(a, b, rb, ra.Votes.Precommits(r))
+				s.offerMaj23(a, b, rb, ra.Votes.Prevotes(r), ra.Height, r, kproto.PrevoteType)
+				s.offerMaj23(a, b, rb, ra.Votes.Precommits(r), ra.Height, r, kproto.PrecommitType)
 			}
 		}
 	case ra.Height > rb.Height:
@@ -136,15 +178,40 @@ func (s *Sim) gossipPair(na, nb *kit.Node, ra, rb *cstypes.RoundState) {
 			commit = na.BOper.LoadBlockCommit(rb.Height)
 		}
 		if commit != nil {
+			// the product's queryMaj23Routine claims the commit's majority for a peer
+			// that is catching up, so that it keeps votes conflicting with what an
+			// equivocator told it earlier
+			var theirs *types.VoteSet
+			if rb.Votes != nil {
+				theirs = rb.Votes.Precommits(commit.Round)
+			}
+			if theirs != nil {
+				if m2, ok2 := theirs.TwoThirdsMajority(); !ok2 || !m2.Equal(commit.BlockID) {
+					s.offer(a, b, consensus.StateChannel, &consensus.VoteSetMaj23Message{Height: commit.Height, Round: commit.Round, Type: kproto.PrecommitType, BlockID: commit.BlockID},
+						fmt.Sprintf("maj23/%d/%d/2/%s", commit.Height, commit.Round, short(commit.BlockID.Hash)),
+						fmt.Sprintf("VoteSetMaj23 h%d r%d t2 %s (catchup)", commit.Height, commit.Round, short(commit.BlockID.Hash)))
+				}
+			}
+			var have *cmn.BitArray
+			if theirs != nil {
+				have = theirs.BitArrayByBlockID(commit.BlockID)
+			}
 			for i := range commit.Signatures {
 				if commit.Signatures[i].Absent() {
 					continue
 				}
 				v := commit.GetVote(uint32(i))
-				if v == nil || hasVote(rb, v) {
+				if v == nil {
 					continue
 				}
-				s.offer(a, b, consensus.VoteChannel, &consensus.VoteMessage{Vote: v}, voteKey(v),
+				if v.BlockID.Equal(commit.BlockID) {
+					if have != nil && have.GetIndex(i) {
+						continue
+					}
+				} else if hasVote(rb, v) {
+					continue
+				}
+				s.offer(a, b, consensus.VoteChannel, &consensus.VoteMessage{Vote: v}, "c"+voteKey(v),
 					fmt.Sprintf("CommitVote h%d r%d i%d %s", v.Height, v.Round, v.ValidatorIndex, short(v.BlockID.Hash)))
 			}
 		}
